@@ -430,7 +430,111 @@ def rtu_request_delimitable(pdu):
     return False
 
 
+def valid_response(r):
+    """a syntactically valid response PDU (length rule of the response parser holds)"""
+    fc = r.pick([1, 2, 3, 4, 5, 6, 15, 16, 0x81, 0x83, 0x8F, 0x90, 0xAB])
+    if fc >= 0x80:
+        return bytes([fc, r.pick([1, 2, 3, 4, 6, 11, r.below(256)])])
+    if fc in (1, 2):
+        n = r.pick([0, 1, 2, 250, 251]) if r.chance(1, 3) else r.rng(0, 251)
+        return bytes([fc, n]) + r.bytes(n)
+    if fc in (3, 4):
+        n = r.pick([0, 2, 250]) if r.chance(1, 3) else 2 * r.rng(0, 125)
+        return bytes([fc, n]) + r.bytes(n)
+    return bytes([fc]) + r.bytes(4)
+
+
+def rtu_frames(r, direction, n):
+    out = []
+    for _ in range(n):
+        pdu = None
+        while pdu is None:
+            pdu = valid_request(r) if direction == "q" else valid_response(r)
+            if direction == "q" and not rtu_request_delimitable(pdu):
+                pdu = None
+        out.append(rtu(r.below(256) if r.chance(1, 4) else r.pick([0, 1, 42, 247, 255]), pdu))
+    return out
+
+
+FIXED_RTU = {
+    "q": ["2a01001000137a19", "2a0200100013" + "3e19", "2a0300100003" + "0215", "2a0400100003b7d5",
+          "2a050010ff008be4", "2a06001012348363", "2a0f0010000a021234002e", "2a100010000204123456780773"],
+    "p": ["2a0103cd6b054499", "2a0203cd6b050099", "2a03061234567823453060", "2a04061234567823457186",
+          "2a050010ff008be4", "2a06001012348363", "2a0f0010000ad212", "2a10001000024616"],
+}
+
+
+def xor_at(frame, bits):
+    f = bytearray(frame)
+    for b in bits:
+        f[b // 8] ^= 1 << (b % 8)
+    return bytes(f)
+
+
+def gen_rdr_rtu(r, n, tier):
+    for d in ("q", "p"):
+        frames = [bytes.fromhex(x) for x in FIXED_RTU[d]]
+        exc = rtu(0x2A, bytes([0x83, 2]))
+        if d == "p":
+            frames.append(exc)
+        # all 16 fixed vectors back to back, whole and byte per byte
+        s = b"".join(frames)
+        yield f"rdr {d} d000 {hx(s)}"
+        yield f"rdr {d} d000 {chunks_tok(chunkings(r, s, 'bytes'))}"
+        # exhaustive: all chunk compositions of short frames
+        for f in frames:
+            if len(f) <= (11 if tier == "thorough" else 9):
+                for comp in all_compositions(f):
+                    yield f"rdr {d} d000 {chunks_tok(comp)}"
+        # exhaustive: every single-bit error of every fixed frame; followed by a valid frame so
+        # that a false accept / mis-delimitation becomes visible
+        tail = frames[0]
+        for f in frames:
+            nb = 8 * len(f)
+            for b in range(nb):
+                yield f"rdr {d} d000 {hx(xor_at(f, [b]) + tail)}"
+            # double-bit errors: all pairs (thorough) / a stride (quick)
+            pairs = [(i, j) for i in range(nb) for j in range(i + 1, nb)]
+            if tier != "thorough":
+                pairs = [pr for k, pr in enumerate(pairs) if k % 23 == 0]
+            for i, j in pairs:
+                yield f"rdr {d} d000 {hx(xor_at(f, [i, j]) + tail)}"
+            # bursts of length <= 16: first and last bit flipped, random interior
+            starts = range(nb) if tier == "thorough" else range(0, nb, 3)
+            for st in starts:
+                for ln in ((2, 3, 5, 8, 9, 15, 16) if tier != "thorough" else range(2, 17)):
+                    if st + ln > nb:
+                        continue
+                    bits = [st, st + ln - 1] + [st + k for k in range(1, ln - 1) if r.chance(1, 2)]
+                    yield f"rdr {d} d000 {hx(xor_at(f, bits) + tail)}"
+        # unknown function codes, too-long frames, wrong crc
+        for fc in (0, 7, 8, 17, 43, 0x80, 0xFF):
+            yield f"rdr {d} d000 {hx(bytes([1, fc]) + bytes(8))}"
+        yield f"rdr q d000 {hx(rtu(1, bytes([15, 0, 0, 0, 8, 250]) + bytes(250)))}"
+        yield f"rdr p d000 {hx(rtu(1, bytes([3, 252]) + bytes(252)))}"
+        yield f"rdr p d000 {hx(rtu(1, bytes([3, 251]) + bytes(251)))}"
+        yield f"rdr p d000 {hx(rtu(1, bytes([1, 255]) + bytes(255)))}"
+    for _ in range(n):
+        d = r.pick(["q", "p"])
+        frames = rtu_frames(r, d, r.rng(1, 12))
+        k = r.below(10)
+        if k == 0 and frames:
+            i = r.below(len(frames))
+            f = frames[i]
+            frames[i] = xor_at(f, [r.below(8 * len(f))])
+        elif k == 1 and frames:
+            i = r.below(len(frames))
+            frames[i] = frames[i][:-1] + bytes([frames[i][-1] ^ 0x10])
+        elif k == 2:
+            frames.insert(r.below(len(frames) + 1), r.bytes(r.rng(1, 10)))
+        s = b"".join(frames)
+        if r.chance(1, 5):
+            s = s[:r.rng(0, len(s))]
+        yield f"rdr {d} {decode_tok(r)} {chunks_tok(chunkings(r, s))}"
+
+
 SUITES = {
+    "rdr_rtu": gen_rdr_rtu,
     "range": gen_range,
     "crc": gen_crc,
     "rdr_mbap": gen_rdr_mbap,
